@@ -15,6 +15,8 @@ Groups
 """
 import copy
 import json
+import math
+import numbers as numbers_abc
 
 from common import c_Q, c_bool, c_list, c_opt, c_str, c_Z
 
@@ -33,8 +35,8 @@ FN_GRAPH = 'fun c => match c with (h, g, o) => agree_graph h g o :: holds_graph 
 K_GRAPH = 5
 FN_IND = 'fun c => match c with (h, i, o) => agree_ind h i o :: holds_ind h i o end'
 K_IND = 6
-FN_LOCK = ('fun c => match c with (vo, vl, steps) => '
-           '[agree_lock (Some vo) (Some vl) steps; holds_lock vo vl steps] end')
+FN_LOCK = ('fun c => match c with (vo, vl, steps, meta_same) => '
+           '[agree_lock (Some vo) (Some vl) steps; holds_lock vo vl steps && meta_same] end')
 
 GRAPH_CLAUSES = ['the saved graph was changed by saving',
                  'the loaded graph differs from the saved one (uids / names / parameters / parent order / '
@@ -210,6 +212,21 @@ def name_style(content):
     return 'none' if n is None else 'bool' if isinstance(n, bool) else 'int' if isinstance(n, int) else 'str'
 
 
+def c11_postprocess(graph, nodes):
+    """a user postprocess_nodes function (module level, so that it is serialised by its path):
+    it visibly edits the nodes - counts its calls in every node's params"""
+    for n in nodes:
+        params = n.content.get('params')
+        if not isinstance(params, dict):
+            params = {}
+            n.content['params'] = params
+        params['pp'] = params.get('pp', 0) + 1
+
+
+def inner_graph(graph):
+    return graph.operator if isinstance(graph, OptGraph) else graph
+
+
 def build_graph(spec):
     """spec = {'kind': 'opt'|'linked', 'nodes': [{'uid', 'content', 'parents': [idx]}], 'order': [idx]}
     returns (graph, node objects in creation order)"""
@@ -220,7 +237,8 @@ def build_graph(spec):
         objs.append(n)
     for ns, n in zip(spec['nodes'], objs):
         n.nodes_from = [objs[p] for p in ns['parents']]
-    graph = OptGraph() if spec['kind'] == 'opt' else LinkedGraph()
+    kw = {'postprocess_nodes': c11_postprocess} if spec.get('post') else {}
+    graph = OptGraph(**kw) if spec['kind'] == 'opt' else LinkedGraph(**kw)
     graph.nodes = [objs[i] for i in spec['order']]
     return graph, objs
 
@@ -267,6 +285,16 @@ def _try(fn):
         return ('exc', type(ex).__name__)
 
 
+def parse_tree(text):
+    """plain JSON tree of a text; None when it holds NaN / Infinity (not JSON, and not a rational)"""
+    def bad(_):
+        raise ValueError('non-finite number')
+    try:
+        return json.loads(text, parse_constant=bad)
+    except ValueError:
+        return None
+
+
 def dumps(obj, pretty=False):
     return json.dumps(obj, indent=4, cls=Serializer) if pretty else json.dumps(obj, cls=Serializer)
 
@@ -309,7 +337,7 @@ def observe_graph(spec):
             o['shares'] = any(id(n) in {id(x) for x in objs} for n in nodes)
             r2 = _try(lambda: dumps(loaded))
             if r2[0] == 'ok':
-                o['resave'] = json.loads(r2[1])
+                o['resave'] = parse_tree(r2[1])
                 o['text_same'] = (r2[1] == text)
             d1, d2 = _try(lambda: graph.descriptive_id), _try(lambda: loaded.descriptive_id)
             o['descid_same'] = (d1 == d2)
@@ -499,14 +527,16 @@ def seq_kind(x):
 
 def rec_fitness(f):
     """description of a fitness object as it is in memory; None if it has an unexpected shape"""
+    def finite(xs):
+        return all(x is None or (isinstance(x, (int, float)) and not isinstance(x, bool) and math.isfinite(x)) for x in xs)
     if type(f) is SingleObjFitness:
         v = f._values
-        if seq_kind(v) is None:
+        if seq_kind(v) is None or not finite(v):
             return None
         return ('S', seq_kind(v), list(v))
     if type(f) is MultiObjFitness:
         w, v = f._weights, f.wvalues
-        if seq_kind(w) is None or seq_kind(v) is None:
+        if seq_kind(w) is None or seq_kind(v) is None or not finite(w) or not finite(v):
             return None
         return ('M', seq_kind(w), seq_kind(v), list(w), list(v))
     return None
@@ -592,7 +622,7 @@ def observe_individual(spec, via_methods):
                 o['loaded'] = lr2[1]
             r2 = _try(lambda: loaded.save() if via_methods else dumps(loaded))
             if r2[0] == 'ok':
-                o['resave'] = json.loads(r2[1])
+                o['resave'] = parse_tree(r2[1])
                 o['text_same'] = (r2[1] == text)
             o['descid_same'] = (_try(lambda: ind.graph.descriptive_id) == _try(lambda: loaded.graph.descriptive_id)
                                 and _try(lambda: ind == loaded) == ('ok', True))
@@ -602,8 +632,15 @@ def observe_individual(spec, via_methods):
                 ref = _try(lambda: op(of, of))
                 outs.append((_try(lambda: op(lf, of)), _try(lambda: op(of, lf)), ref))
             o['cmp_raised'] = any(a[0] == 'exc' or b[0] == 'exc' for a, b, ref in outs)
+            def numbers(f):     # the stored numbers, integers told from floats (7 is not 7.0; numpy scalars count
+                # as what they are instances of)
+                def kind(x):
+                    return ('none' if x is None else 'bool' if isinstance(x, bool) else
+                            'int' if isinstance(x, numbers_abc.Integral) else 'float', x)
+                return [[kind(x) for x in getattr(f, a, ())] for a in ('_values', 'wvalues', '_weights')]
             o['cmp_equal'] = all(a == ref and b == ref for a, b, ref in outs) and \
-                (_try(lambda: lf.valid) == _try(lambda: of.valid))
+                (_try(lambda: lf.valid) == _try(lambda: of.valid)) and \
+                (_try(lambda: numbers(lf)) == _try(lambda: numbers(of)))
             hl, ho = _try(lambda: hash(lf)), _try(lambda: hash(of))
             o['hash_raised'] = (hl[0] == 'exc' and ho[0] == 'ok')
             o['hash_same'] = (hl == ho)
@@ -630,6 +667,8 @@ def ind_case(spec, h, ind_rec, o, tamper=False):
 
 
 DY = [0.0, 1.0, -1.0, 0.5, 1.5, 2.0, 0.25, -3.75, 100.0, 2.0 ** -20]
+INTS = [7, 0, -3, 2]
+WEIGHTS = [1.0, -1.0, 0.5, 0.0, 0, 1, -1, 2, 0.25, -2.5]
 METADATA = [None, {}, {'computation_time_in_seconds': 0.5}, {'k': [1, 2, {'a': None}], 'evaluation': {'ok': True}},
             {'note': 'x', 'n': 3}]
 
@@ -667,12 +706,14 @@ def gen_ind_specs(ctx):
         elif fk == 1:
             fit = ('S', [None])
         elif fk == 2:
-            fit = ('S', [rng.choice(DY)])
+            fit = ('S', [rng.choice(DY + INTS)])
         elif fk == 3:
-            fit = ('S', [rng.choice(DY), rng.choice(DY)])
+            fit = ('S', [rng.choice(DY + INTS), rng.choice(DY + INTS)])
         elif fk == 4:
+            # weighted values: zero / negative / fractional / integer weights, int-valued objectives
+            # (an int objective with an int weight is stored - and printed - as an int)
             k = rng.choice([1, 2, 3])
-            fit = ('M', [rng.choice(DY) for _ in range(k)], [rng.choice([1.0, -1.0, 0.5]) for _ in range(k)])
+            fit = ('M', [rng.choice(DY + INTS) for _ in range(k)], [rng.choice(WEIGHTS) for _ in range(k)])
         else:
             fit = ('M', [], [])
         pk = (i // 6) % 6
@@ -722,6 +763,8 @@ def run_individuals(ctx):
         valid = f is not None and ((f[0] == 'S' and f[1][0] is not None) or (f[0] == 'M' and len(f[1]) > 0))
         ctx.count('individuals', key=json.dumps(spec, sort_keys=True), nontrivial=(valid or spec['pop'] is not None),
                   fitness=fk, evaluated=valid, parent_operator=(spec['pop'] or {}).get('type'),
+                  zero_weight=(fk == 'multi' and any(w == 0 for w in f[2])),
+                  int_objective=(f is not None and any(isinstance(x, int) for x in f[1])),
                   n_parents=len((spec['pop'] or {}).get('parents', [])), metadata=bool(spec['metadata']),
                   repeated_parent=(len(set((spec['pop'] or {}).get('parents', [])))
                                    != len((spec['pop'] or {}).get('parents', []))))
@@ -796,7 +839,7 @@ def observe_load(tree, kind):
         return 'unexpected', None
     cells = snap_nodes(nodes, 0)
     r2 = _try(lambda: dumps(lr[1]))
-    return (cells, list(range(len(nodes)))), (json.loads(r2[1]) if r2[0] == 'ok' else None)
+    return (cells, list(range(len(nodes)))), (parse_tree(r2[1]) if r2[0] == 'ok' else None)
 
 
 def run_json_load(ctx):
@@ -932,7 +975,9 @@ def apply_op(graph, op):
         raise AssertionError(kind)
 
 
-def c_op(op):
+def c_op(op, post=False):
+    if post:
+        return 'OOther'        # the user callback edits the nodes: not an operation of the model
     if op[0] == 'connect':
         return '(OConnect %d %d)' % (op[1], op[2])
     if op[0] == 'disconnect' and not op[3]:
@@ -994,6 +1039,10 @@ def lock_run(spec, ops, via_individual):
     known = known_uids(spec, ops)
     fo, fl = {}, {}
     vo, vl = view(graph, known, fo), view(loaded, known, fl)
+    # before any editing: the loaded copy saves to the same text and carries the same postprocess function
+    meta_same = (_try(lambda: dumps(loaded) == dumps(graph)) == ('ok', True) and
+                 _try(lambda: inner_graph(loaded)._postprocess_nodes is inner_graph(graph)._postprocess_nodes)
+                 == ('ok', True))
     steps = []
     for op in ops:
         ro = _try(lambda: apply_op(graph, op))
@@ -1010,10 +1059,10 @@ def lock_run(spec, ops, via_individual):
                 steps[-1] = (op, a, (('MISMATCH-AFTER-RAISE', '', None, (), False),))
         if ro[0] == 'exc' or rl[0] == 'exc':
             break          # the state after an exception is compared above; the sequence ends there
-    return vo, vl, steps
+    return vo, vl, steps, meta_same
 
 
-def lock_case(vo, vl, steps, tamper=False):
+def lock_case(vo, vl, steps, meta_same=True, post=False, tamper=False):
     em = Em()
     names = {}
 
@@ -1030,8 +1079,8 @@ def lock_case(vo, vl, steps, tamper=False):
     for i, (op, x, y) in enumerate(steps):
         if tamper and i == len(steps) - 1 and y is not None:
             y = y[:-1] if len(y) else y + (('t', 't', None, (), True),)
-        ss.append('mkStep %s %s %s' % (c_op(op), ref(x), ref(y)))
-    return em.wrap('(%s, %s, %s)' % (a, b, c_list(ss, 'lstep')))
+        ss.append('mkStep %s %s %s' % (c_op(op, post), ref(x), ref(y)))
+    return em.wrap('(%s, %s, %s, %s)' % (a, b, c_list(ss, 'lstep'), c_bool(meta_same)))
 
 
 def gen_lock_specs(ctx):
@@ -1056,6 +1105,11 @@ def gen_lock_specs(ctx):
         else:
             rng.shuffle(order)
         spec = {'kind': rng.choice(['opt', 'opt', 'opt', 'linked']), 'nodes': nodes, 'order': order}
+        if i % 4 == 1:
+            # a graph with a user postprocess_nodes function (serialised by path), LinkedGraph directly
+            # half of the time: delete_node / disconnect_nodes / update_node call it
+            spec['post'] = True
+            spec['kind'] = rng.choice(['linked', 'opt'])
         out.append((spec, rng.randrange(1 << 30), i % 5 == 4 and spec['kind'] == 'opt'))
     return out
 
@@ -1078,13 +1132,14 @@ def run_lockstep(ctx):
     cases, meta = [], []
     for spec, seed, via_ind in gen_lock_specs(ctx):
         ops = lock_ops(spec, seed)
-        vo, vl, steps = lock_run(spec, ops, via_ind)
-        cases.append(lock_case(vo, vl, steps))
+        vo, vl, steps, meta_same = lock_run(spec, ops, via_ind)
+        post = bool(spec.get('post'))
+        cases.append(lock_case(vo, vl, steps, meta_same, post))
         meta.append((spec, ops, via_ind, vo, vl, steps))
     # canary: the last observed view of the loaded copy is falsified
     for spec, ops, via_ind, vo, vl, steps in meta:
         if steps and steps[-1][2] is not None and steps[-1][1] is not None:
-            cases.append(lock_case(vo, vl, steps, tamper=True))
+            cases.append(lock_case(vo, vl, steps, True, bool(spec.get('post')), tamper=True))
             ctx.canaries += 1
             break
     res = eval_cases(ctx, 'lockstep', FN_LOCK, cases, 2, per_shard=120)
@@ -1096,13 +1151,15 @@ def run_lockstep(ctx):
         dup = any(len(set(x[3])) != len(x[3]) for st in steps for v in st[1:] if v for x in v)
         for op, a, b in steps:
             ctx.count('lockstep', key=(view_key(vo), json.dumps(ops, sort_keys=True)), nontrivial=True, op=op[0],
-                      raised=(a is None), modelled=(c_op(op) != 'OOther'), duplicate_links=dup)
+                      raised=(a is None), modelled=(c_op(op, bool(spec.get('post'))) != 'OOther'),
+                      duplicate_links=dup, user_postprocess=bool(spec.get('post')), graph_class=spec['kind'])
         if not steps:
             ctx.count('lockstep', key=(view_key(vo), 'no-ops'), nontrivial=False, op='none')
         if not r[0]:
             ctx.disagree('lockstep', case, 'model of connect/disconnect/delete_node differs from the implementation')
         if not r[1]:
-            ctx.violate('lockstep', case, 'the loaded copy and the original differ after the same editing operations')
+            ctx.violate('lockstep', case, 'the loaded copy and the original differ after the same editing operations '
+                                          '(or before them: postprocess function / saved text of the loaded copy)')
         if sampled < 1 and len(steps) >= 4:
             sampled += 1
             ctx.sample({'group': 'lockstep', 'spec': spec, 'ops': ops,
@@ -1167,8 +1224,8 @@ def replay_cases(ctx, cases):
         terms = []
         for case in by['lockstep']:
             ops = [tuple(o) for o in case['ops']]
-            vo, vl, steps = lock_run(case['spec'], ops, case.get('via_individual', False))
-            terms.append(lock_case(vo, vl, steps))
+            vo, vl, steps, meta_same = lock_run(case['spec'], ops, case.get('via_individual', False))
+            terms.append(lock_case(vo, vl, steps, meta_same, bool(case['spec'].get('post'))))
         for case, r in zip(by['lockstep'], ctx.coq_cases('replay', REQ, FN_LOCK, terms, 2, preamble=PRE)):
             ctx.count('replay', key=json.dumps(case, sort_keys=True), nontrivial=True, kind='lockstep')
             if not r[0]:
